@@ -7,6 +7,7 @@ An unmodelled operation on a proxy raises Unsupported -> the obligation is undec
 from __future__ import annotations
 
 import itertools
+import os
 import traceback
 from dataclasses import dataclass, field
 from typing import Any, Callable, Dict, List, Optional, Tuple
@@ -121,6 +122,21 @@ def ctx() -> Ctx:
     return CUR
 
 
+_HERE = os.path.dirname(os.path.dirname(os.path.abspath(__file__)))
+
+
+def _raised_by_contract(e: BaseException) -> bool:
+    tb = e.__traceback__
+    last = None
+    while tb is not None:
+        last = tb
+        tb = tb.tb_next
+    if last is None:
+        return False
+    f = os.path.abspath(last.tb_frame.f_code.co_filename)
+    return f.startswith(os.path.join(_HERE, "contracts") + os.sep)
+
+
 def explore(fn: Callable[[], Any], variant: int = 0, assumptions: Optional[Callable[[Ctx], List[Any]]] = None,
             max_paths: int = 4000) -> Tuple[List[Path], Ctx]:
     """run fn() once per feasible decision prefix"""
@@ -141,6 +157,10 @@ def explore(fn: Callable[[], Any], variant: int = 0, assumptions: Optional[Calla
                 except RecursionError:
                     raise Unsupported("recursion limit")
                 except Exception as e:  # exceptional path of the function under contract
+                    if isinstance(e, (AttributeError, TypeError)) and _raised_by_contract(e):
+                        # the sidecar contract's own call does not fit this tree (target renamed / removed, changed
+                        # signature): nothing is known about the code -- undecided, never an exceptional path of it
+                        raise Unsupported(f"the contract does not fit the tree: {type(e).__name__}: {e}")
                     e._pyvc_tb = traceback.format_exc(limit=6)
                     paths.append(Path(list(c.pc), "exc", e, tuple(c.prefix[:c.pos]), list(c.log), list(c.excluded)))
             except Infeasible:
@@ -391,7 +411,15 @@ class SymSeq(list):
     def _unsup(self, *a, **k):
         raise Unsupported("native access to a symbolic sequence")
 
-    __iter__ = __len__ = __getitem__ = _unsup
+    __iter__ = __len__ = _unsup
+
+    def __getitem__(self, k):
+        if isinstance(k, slice) and k == slice(None, None, None):
+            return self         # a full copy denotes the same sequence
+        raise Unsupported("native access to a symbolic sequence")
+
+    def copy(self):
+        return self
 
     def __add__(self, o):
         # concatenation with a concrete list: the symbolic part is kept as one splice placeholder
